@@ -70,6 +70,16 @@ func isIdentLike(s string) bool {
 	return true
 }
 
+func (l *refLexer) longestOp(in []rune, i int) string {
+	best := ""
+	for _, op := range l.symOps {
+		if len([]rune(op)) > len([]rune(best)) && hasPrefixRunes(in, i, []rune(op)) {
+			best = op
+		}
+	}
+	return best
+}
+
 func newRefLexer(opNames []string) *refLexer {
 	l := &refLexer{wordOps: map[string]bool{}, opChar: map[rune]bool{}}
 	for _, r := range operatorChars {
@@ -299,14 +309,13 @@ func (l *refLexer) lex(in []rune) (toks []refTok, ok bool) {
 			end, t.kind = i+1, string(r)
 		case (r == '.' || r == '?') && (i+1 >= len(in) || !l.opChar[in[i+1]]):
 			end, t.kind = i+1, string(r)
-		case l.opChar[r]:
-			best := ""
-			for _, op := range l.symOps {
-				if len([]rune(op)) > len([]rune(best)) && hasPrefixRunes(in, i, []rune(op)) {
-					best = op
-				}
-			}
-			if best != "" {
+		// an operator character starts a registered symbolic operator or
+		// nothing - except that one character of the operator alphabet (U+02C6,
+		// a modifier LETTER) is also a letter of the identifier alphabet: where
+		// no registered operator starts with it, it begins a word, as the
+		// lexicon's rule order (operators, then identifiers) has it
+		case l.opChar[r] && (l.longestOp(in, i) != "" || !isWordStart(r)):
+			if best := l.longestOp(in, i); best != "" {
 				end, t.kind, t.operatorSymbol = i+len([]rune(best)), best, true
 			}
 		case isWordStart(r):
